@@ -481,4 +481,32 @@ def elemsOK : List Elem → Bool
 def reloc (φ : Nat × Nat → Nat × Nat) (t : RTok) : RTok :=
   { t with line := (φ (t.line, t.col)).1, col := (φ (t.line, t.col)).2 }
 
+
+def RTok.pos (t : RTok) : Nat × Nat := (t.line, t.col)
+
+/-- positions of the one-character operator tokens -/
+def opPositions (ts : List RTok) : List (Nat × Nat) := (ts.filter fun t => t.op != '\x00').map RTok.pos
+
+/-- executable form of the hypothesis on a relocation: `φ` keeps "same line" between any two of the positions
+    `ps`, and "next column" between any two of the positions `qs` that share a line -/
+def presB (φ : Nat × Nat → Nat × Nat) (ps qs : List (Nat × Nat)) : Bool :=
+  (ps.all fun p => ps.all fun q => decide ((φ p).1 = (φ q).1) == decide (p.1 = q.1)) &&
+  (qs.all fun p => qs.all fun q => p.1 != q.1 || (decide ((φ p).2 + 1 = (φ q).2) == decide (p.2 + 1 = q.2)))
+
+def dotsLineB (tok : RTok) (rest : List RTok) : Bool :=
+  match rest with
+  | n1 :: n2 :: _ => !(tok.op = '.' && n1.op = '.' && n2.op = '.') || (tok.line = n1.line && n1.line = n2.line)
+  | _ => true
+
+/-- three directly following `.` tokens share a line -/
+def dotsOKB : List RTok → Bool
+  | [] => true
+  | t :: r => dotsLineB t r && dotsOKB r
+
+/-- a relocation given by a finite table (identity elsewhere) -/
+def tableMap (tbl : List ((Nat × Nat) × (Nat × Nat))) (p : Nat × Nat) : Nat × Nat :=
+  match tbl.lookup p with
+  | some q => q
+  | none => p
+
 end Cppcheck.Lexer
